@@ -11,7 +11,7 @@ import collections
 import itertools
 
 from . import probes
-from .chartgen import build_api, build_yaml, build_api_rebuilt, Tree, HIST
+from .chartgen import build_api, build_yaml, build_api_rebuilt, build_api_moved, Tree, HIST
 from .refmodel import Model, canon_snaps
 
 from sismic.interpreter import Interpreter
@@ -35,6 +35,8 @@ class Runner:
             self.sc, self.objs = prebuilt
         elif builder == 'rebuilt':
             self.sc, self.objs = build_api_rebuilt(spec)
+        elif builder == 'moved':
+            self.sc, self.objs = build_api_moved(spec)
         elif builder == 'api':
             self.sc, self.objs = build_api(spec)
         else:
@@ -45,6 +47,7 @@ class Runner:
         self.interp_kwargs = interp_kwargs or {}
         self.leftovers = []
         self.kept = []          # (MacroStep, signature when it was returned) of the current run
+        self.delayed_event = False
 
     # ----------------------------------------------------------------- real execution
     def new_interpreter(self):
@@ -69,7 +72,13 @@ class Runner:
         probes.VAL.clear()
         if op[0] == 'E':
             probes.VAL.update(op[1])
-            it.queue(self.event)
+            if self.delayed_event:
+                # the triggering event carries a delay and is due when the step starts
+                from sismic.model import Event as _Event
+                it.queue(_Event(self.event, delay=1))
+                it.clock.time += 1
+            else:
+                it.queue(self.event)
         elif op[0] == 'U':
             it.queue('zz_unhandled')
         try:
